@@ -89,6 +89,24 @@ def run(ctx):
                        (u(x.ast) == fct[1] or (g.expanded.get(x.id) is not None and u(g.expanded[x.id]) == fct[1]))]
               if cond and sl and tests and witness(g, g.entry.id, [w.call_node.id], avoid=[tests[0].id]) is None:
                 ok = True
+  if not ok:
+    # one loop over enumerate(args): raise where the value is the marker and the index is beyond the named positionals
+    for n in g.live_nodes():
+      if n.kind != 'raise_stmt':
+        continue
+      for lp in [l for l in n.loops if isinstance(l, ast.For)]:
+        if not (isinstance(lp.iter, ast.Call) and u(lp.iter.func) == 'enumerate' and lp.iter.args and u(lp.iter.args[0]) == w.A
+                and isinstance(lp.target, ast.Tuple) and len(lp.target.elts) == 2):
+          continue
+        k_, v_ = u(lp.target.elts[0]), u(lp.target.elts[1])
+        fsn = facts[n.id]
+        beyond = any(f_[0] == 'c' and ((f_[2] is True and f_[1].replace(' ', '') == '%s>=len(%s)' % (k_, w.posnames)) or
+                                        (f_[2] is False and f_[1].replace(' ', '') == '%s<len(%s)' % (k_, w.posnames))) for f_ in fsn)
+        lpn = [x for x in g.live_nodes() if x.kind == 'for' and x.ast is lp]
+        if ('c', '%s is %s' % (v_, REQ), True) in fsn and beyond and lpn and witness(g, g.entry.id, [w.call_node.id], avoid=[lpn[0].id]) is None:
+          # nothing but the two tests guards the raise
+          extra = [f_ for f_ in fsn if f_[0] == 'c' and (k_ in f_[1] or v_ in f_[1]) and REQ not in f_[1] and 'len(' not in f_[1]]
+          ok = not extra
   ctx.check(ok, 'C10.vararg', con, 'the marker among unnamed (variadic) positionals raises before anything else is done',
             'passing the REQUIRED marker for an unnamed variadic positional is no longer rejected', f.loc(), instance='vararg')
 
@@ -104,7 +122,7 @@ def run(ctx):
             cmp_sites += 1
             if not isinstance(op, (ast.Is, ast.IsNot)):
               bad.append(fn.loc(n))
-  ctx.expect_at_least('comparisons with the REQUIRED sentinel', cmp_sites, 5)
+  ctx.expect_at_least('comparisons with the REQUIRED sentinel', cmp_sites, 3)
   ctx.check(not bad, 'C10.identity', 'gin/config.py::REQUIRED', 'all %d comparisons with the sentinel use identity (`is`)' % cmp_sites,
             'the sentinel is compared by equality / membership at %s: a user value that compares equal to anything (or whose __eq__ raises) '
             'is mistaken for the marker' % bad, bad[0] if bad else 'gin/config.py', sites=cmp_sites)
@@ -118,7 +136,7 @@ def run(ctx):
   pos_ok = False
   detail = 'no loop over the REQUIRED positional indexes'
   for n in g.live_nodes():
-    if n.kind == 'for' and w.req_pos_idx and w.req_pos_names and w.req_pos_idx in u(n.ast.iter) and w.req_pos_names in u(n.ast.iter):
+    if n.kind == 'for' and w.required_positional_loop(n.ast):
       lp = n.ast
       body_nodes = [x for x in g.live_nodes() if x.ast is not None and in_subtree(x.ast, lp) and x.id != n.id]
       app = [x for x in body_nodes if x in appended.get(missing, [])]
